@@ -114,10 +114,12 @@ def _api(prop, theorems, extra_assume=()):
 PROPS["C05"] = _api("C05", ["C05_browser_403", "C05_unrouted", "step_routed", "C05_unknown_proxy_404", "C05_unknown_toxic_404",
                             "C05_create_dup_409", "C05_create_bad_400", "C05_create_ok", "C05_default_enabled",
                             "C05_toxic_defaults", "C05_toxic_rejects", "C05_toxic_dup_409", "C05_read_your_writes",
-                            "C05_listing_order", "addToxic_ok"])
+                            "C05_listing_order", "addToxic_ok", "inv_step", "C05_reachable_inv"])
+PROPS["C05"]["lean_modules"] = PROPS["C05"]["lean_modules"] + ["Toxi.Proofs.Lemmas.InvStep"]
 PROPS["C06"] = _api("C06", ["C06_rejected_unchanged", "C06_populate_validates_first", "C06_exception_update", "C06_legacy_leaks",
-                            "dispatch_unchanged", "updateToxic_fixed_err"],
+                            "dispatch_unchanged", "updateToxic_fixed_err", "C06_rejected_unchanged_reachable", "inv_step"],
                     ["treatment of traffic: the registry state compared contains every toxic's attributes and toxicity; that links run exactly the listed configuration is C04"])
+PROPS["C06"]["lean_modules"] = PROPS["C06"]["lean_modules"] + ["Toxi.Proofs.Lemmas.InvStep"]
 PROPS["C17"] = _api("C17", ["C17_same_untouched", "C17_idempotent", "C17_differs_replaces", "C17_spelling", "populateLoop_all_match"],
                     ["'every spelling': theorem C17_spelling is under hypothesis spellingOK on the relation measured from the real Proxy.Differs; the model driver evaluates spellingOK on the measured table in every run (a false value is reported as a broken obligation)",
                      "live connections surviving a matching populate / dropped by a replacing one: registry-level here (the proxy object is untouched / stopped); socket level belongs to C03"])
